@@ -292,18 +292,30 @@ func (p *grpcConnectionPool) newConnection(ctx context.Context, target *route.Ta
 
 	conn, err := grpc.DialContext(ctx, target.URL.Host, opts...)
 
-	if err == nil {
-		p.Set(target, conn)
+	if err != nil {
+		return conn, err
 	}
 
-	return conn, err
+	return p.Set(target, conn), nil
 }
 
-func (p *grpcConnectionPool) Set(target *route.Target, conn *grpc.ClientConn) {
+// Set stores conn as the connection for the target and returns the
+// connection to use. When another call has stored a usable connection
+// for the same target in the meantime that connection is kept and conn
+// is closed so that there is only one connection per target which
+// the cleanup can close once the target is gone.
+func (p *grpcConnectionPool) Set(target *route.Target, conn *grpc.ClientConn) *grpc.ClientConn {
 	p.lock.Lock()
 	defer p.lock.Unlock()
 
-	p.connections[makeGRPCTargetKey(target)] = conn
+	key := makeGRPCTargetKey(target)
+	if cur := p.connections[key]; cur != nil && cur != conn && cur.GetState() != connectivity.Shutdown {
+		conn.Close()
+		return cur
+	}
+
+	p.connections[key] = conn
+	return conn
 }
 
 func (p *grpcConnectionPool) cleanup() {
